@@ -143,7 +143,10 @@ def thorough_checks(pid, ctx):
                 'Definition agree := forallb (fun p => value_eqb (%s.Model.run (fst p)) (snd p)) (combine cases expected).\n'
                 'Eval vm_compute in (agree, length cases).\n'
                 % (pid, ';\n '.join(to_coq(c) for c in cases), ';\n '.join(to_coq(o) for _, o in samples), pid))
-        path = os.path.join(coq, pid, 'Zcross_%d.v' % os.getpid())
+        # outside the coq tree: a stray .v file there would enter other checks' concurrent `make`
+        zdir = os.path.join(ROOT, '.work', 'zcross_%s_%d' % (pid, os.getpid()))
+        os.makedirs(zdir, exist_ok=True)
+        path = os.path.join(zdir, 'Zcross.v')
         try:
             with open(path, 'w') as f:
                 f.write(body)
@@ -154,15 +157,8 @@ def thorough_checks(pid, ctx):
             if not ok:
                 out['broken'].append('vm_compute cross-check of the extracted binary failed: ' + p.stdout[-600:])
         finally:
-            for ext in ('.v', '.vo', '.vok', '.vos', '.glob'):
-                try:
-                    os.remove(path[:-2] + ext)
-                except OSError:
-                    pass
-            try:
-                os.remove(os.path.join(coq, pid, '.Zcross_%d.aux' % os.getpid()))
-            except OSError:
-                pass
+            import shutil
+            shutil.rmtree(zdir, ignore_errors=True)
     p = subprocess.run(['timeout', '1500', 'coqchk', '-silent', '-o'] + flags + ['%s.Props' % pid], cwd=coq,
                        stdout=subprocess.PIPE, stderr=subprocess.STDOUT, text=True)
     txt = p.stdout
